@@ -416,6 +416,10 @@ def family_programs(rnd, n):
                "fn r(n, k) { if n == 0 { return f(k); } return r(n - 1, k); }\n"
                f"let d = 0;\nwhile d < 120 {{ r(d, {k}); d = d + 1; }}\nprint(\"after\");")
         out.append((f"errfill:{k}", src, {"stdout": ["true"] * 120 + ["after"], "status": "ok"}))
+    # ---- chan(n) is syntax, not a native of the table: every kind of capacity
+    for i, cap in enumerate(["0", "1", "-1", "0.5", "2", "255", "1e18", "1e300", "(0/0)", "(1/0)", "(-1/0)", '"a"', "nil", "true", "[1]", "Obj0()", "9007199254740993"]):
+        out.append((f"chancap:{i}", HEADER + f'try {{ let c = chan({cap}); c <- 1; print(<- c); }} catch e {{ print("caught"); }}\nprint("after");',
+                    {"contract": True, "last": "after", "status_in": ["ok"]}))
     # ---- launch of something that runs at once (a native, a class without initializer, a class with a native
     # initializer): repeated inside a function whose stack is then used to its reserved depth
     for i, what in enumerate(['print("hi")', "NoInit()", 'Error("x")', "[1].push(2)", '"a".len()', "clock()", "[3, 1].iter()", "Obj0()"]):
